@@ -51,14 +51,11 @@ def eligible_events(sr, w):
             continue
         ordinal[ph] = ordinal.get(ph, 0) + 1
         if ph == 'post-root':
-            if sr.rres[0] != 'ok' or cache_opened:
-                continue        # rollback / commit are best-effort by design
-            if e['ev'] == 'os.rmdir':
+            # after the root function: moving the old cache aside and writing the new one come
+            # before the commit; the commit itself (and a rollback) only remove things and are
+            # best-effort by design - os.remove/os.rmdir there are not fault targets
+            if sr.rres[0] != 'ok' or e['ev'] == 'os.rmdir':
                 continue
-            if e['ev'] == 'open_w' and e['paths'][0] == w.cache:
-                cache_opened = True
-        if e['ev'] == 'open_w' and e['paths'][0] != w.cache:
-            continue
         out.append((ph, ordinal[ph], e))
     return out
 
